@@ -11,6 +11,18 @@ import (
 
 // CanonicalPath 获取合法的path
 func CanonicalPath(p string) string {
+	np := canonicalPath(p)
+	// path.Clean can expose a trailing blank that TrimSpace would have removed
+	// ("/a /." -> "/a "), so one pass is not always canonical: repeat until the
+	// result is its own canonical form. Every further pass strictly shortens
+	// the path, so this terminates.
+	for np != p {
+		p, np = np, canonicalPath(np)
+	}
+	return np
+}
+
+func canonicalPath(p string) string {
 	p = strings.ToLower(strings.TrimSpace(p))
 
 	if p == "" {
